@@ -459,6 +459,25 @@ def f6(tier: str) -> Iterator[Dict]:
             t["decision"] = order
             t["tag"] = f"F6:{name}:" + s["tag"]
             yield t
+    # an auxiliary variable declared *first* (shared domain 0), equal to a variable of the model, and decision domains = the
+    # original domains only (the TSP launcher's shape: decisions on a subset, the rest fixed by propagation); the decision
+    # domains are then neither a prefix of the shared domains nor all of them
+    for k, s in enumerate(base):
+        nd = len(s["doms"])
+        if nd > 5 or k % (3 if tier == "quick" else 1):
+            continue
+        for target in sorted({0, len(s["vars"]) - 1}):
+            t = copy.deepcopy(s)
+            lo, hi = var_range(s, target)
+            t["doms"] = [[lo, hi]] + t["doms"]
+            t["vars"] = [[d + 1, off] for d, off in t["vars"]] + [[0, 0]]
+            aux = len(t["vars"]) - 1
+            t["cons"] = t["cons"] + [["affine_eq", [aux, target], [1, -1, 0]]]
+            t["decision"] = list(range(1, nd + 1))
+            if "costs" in t:
+                del t["costs"]
+            t["tag"] = f"F6:aux-first{target}:" + s["tag"]
+            yield t
 
 
 BOOL_ONLY = ("and", "exactly_true", "gcc")  # in F7: domains must stay inside [0,1] for these joins
